@@ -453,6 +453,36 @@ func (em *emitter) emit(p *pkgInfo, it Item) {
 			return
 		}
 		fmt.Fprintf(&em.b, "def %s : List Nat := %s\n\n", em.name(it), natList(bs))
+	case "strconst":
+		// const X = "..." -> List Nat (the bytes of the string)
+		for _, f := range p.files {
+			for _, d := range f.Decls {
+				gd, ok := d.(*ast.GenDecl)
+				if !ok || gd.Tok != token.CONST {
+					continue
+				}
+				for _, s := range gd.Specs {
+					vs := s.(*ast.ValueSpec)
+					for i, n := range vs.Names {
+						if n.Name == it.Name && i < len(vs.Values) {
+							if bs, ok := p.bytesOf(vs.Values[i]); ok {
+								fmt.Fprintf(&em.b, "def %s : List Nat := %s\n\n", em.name(it), natList(bs))
+								return
+							}
+						}
+					}
+				}
+			}
+		}
+		em.fail(it, "List Nat", "[]", "string constant not found")
+	case "varexpr":
+		// var X = <expr> -> the normalised source text of the initialiser
+		e, ok := p.vars[it.Name]
+		if !ok {
+			em.fail(it, "String", "\"\"", "variable not found")
+			return
+		}
+		fmt.Fprintf(&em.b, "def %s : String := %s\n\n", em.name(it), leanStr(exprText(p.fset, e)))
 	case "inttable":
 		// var X = []T{a, b, c} or map[K]V{k: v} with foldable ints -> List Nat / List (Nat × Nat)
 		e, ok := p.vars[it.Name]
@@ -627,8 +657,10 @@ func main() {
 			for _, it := range sp.Items {
 				typ, zero := "Nat", "0"
 				switch it.Kind {
-				case "bytesvar", "inttable":
+				case "bytesvar", "inttable", "strconst":
 					typ, zero = "List Nat", "[]"
+				case "varexpr":
+					typ, zero = "String", "\"\""
 				case "layout":
 					typ, zero = "List (String × Nat)", "[]"
 				case "calls", "sites", "assigns":
